@@ -128,11 +128,11 @@ ParamsQuick ==
       P(2..5, 3, 1, {"y", "o"}, Fr(2, 1), {Half}, {2}, {"stale", "almost"}) }
 ParamsThorough ==
     { P(1..6, 3, 2, {"y", "os", "o"}, Fr(2, 1), {Half}, {0}, {"fresh"}),
-      P({6, 7, 8}, 2, 3, {"y", "os", "o"}, Fr(3, 2), {Fr(1, 4)}, {0}, {"fresh"}),
-      P(1..5, 2, 3, {"oz", "y10", "o11", "oi", "ys"}, Fr(3, 2), {Fr(1, 4), Fr(3, 4), Fr(1, 1)}, {0}, {"fresh"}),
-      P({6, 7, 8}, 4, 1, {"y6", "o", "os", "oi"}, Fr(2, 1), {Half}, {1, 2, 3, 4}, {"fresh"}),
-      P(2..6, 3, 2, {"y", "o", "os"}, Fr(2, 1), {Half}, {0, 2}, {"stale", "almost"}) }
-
+      P({6, 7, 8}, 2, 3, {"y", "os"}, Fr(3, 2), {Fr(1, 4)}, {0}, {"fresh"}),
+      P(1..5, 2, 3, {"oz", "y10", "o11", "oi"}, Fr(3, 2), {Fr(1, 4), Fr(3, 4), Fr(1, 1)}, {0}, {"fresh"}),
+      P({7}, 4, 1, {"o", "os"}, Fr(2, 1), {Half}, {2, 3}, {"fresh"}),
+      P({6}, 3, 2, {"y6", "os"}, Fr(2, 1), {Half}, {1, 2, 3}, {"fresh"}),
+      P(2..6, 3, 2, {"y", "o"}, Fr(2, 1), {Half}, {2}, {"stale", "almost"}) }
 \* simulation: larger populations, all age classes, all modes (MaxN = 10)
 ParamsSim ==
     { P({n}, 5, 3, {"y", "ys", "o", "os", "oz", "y10", "o11", "oi", "y6"}, Fr(2, 1), {Fr(1, 4), Half}, 0..5, {"fresh", "stale", "almost"}) : n \in {8, 9, 10} }
